@@ -95,6 +95,7 @@ def run(ctx):
     r6 = ctx.rule("C16.R6", "ALG: _join_items on symbolic item lists: 'none' keeps every item of both sides; 'outer' adds right items that are not identical to a left item; 'left outer' adds right items whose name is new, keeping the left version of a clash; 'right outer' the mirror image; deep merging joins the sub-lists of items with the same name; inputs are not modified", "ALG", floor=5)
     r7 = ctx.rule("C16.R7", "OBJECT-HISTORY (interpreted): real Workspace objects (Workspace.__init__ through the channel-summary mixin into dict, class-level attributes shared by all instances as in Python) built one after the other in ONE process for two specifications with the SAME channel name and different observations and measurement names; each object's observations / measurement_names / data(model) are its own afterwards; combine(left, right, 'left outer') then leaves both inputs' payload, observations and data() as they were and returns the left observation for the common channel", "HISTORY", floor=1)
     _object_history(ctx, r7, repo)
+    workspace_verbatim(ctx, r7, repo)
     r5 = ctx.rule("C16.R5", "TABLE: sorted sorts channels, samples, measurements, parameters, observations by name and modifiers by (name, type)", "TABLE", floor=6)
 
     # ------------------------------------------------------------ R1
@@ -562,7 +563,7 @@ def _object_history(ctx, rid, repo):
         return v if v is None or isinstance(v, (str, bool)) else str(to_poly(v))
 
     try:
-        w = World({"__strict__": True, "deepcopy": lambda a, k: _deep(a[0])}, module_env={"log": Obj("log"), "schema": Obj("schema"), "exceptions": Obj("exceptions"), "copy": Obj("copy"), "jsonpatch": Obj("jsonpatch")})
+        w = World({"__strict__": True, "deepcopy": lambda a, k: _deep(a[0]), "__isinstance__": _isinstance_of_modelled_class}, module_env={"log": Obj("log"), "schema": Obj("schema"), "exceptions": Obj("exceptions"), "copy": Obj("copy"), "jsonpatch": Obj("jsonpatch")})
         w.add_foreign_base("dict", dict_base())
         w.add_class(mix).add_class(wsc)
         m = repo.module(WS)
@@ -641,7 +642,7 @@ def _one_workspace(repo):
     if True:
         wsc = repo.cls(WS, "Workspace")
         mix = repo.cls("src/pyhf/mixins.py", "_ChannelSummaryMixin")
-        w = World({"__strict__": True, "deepcopy": lambda a, k: _deep(a[0])}, module_env={"log": Obj("log"), "schema": Obj("schema"), "exceptions": Obj("exceptions"), "copy": Obj("copy"), "jsonpatch": Obj("jsonpatch")})
+        w = World({"__strict__": True, "deepcopy": lambda a, k: _deep(a[0]), "__isinstance__": _isinstance_of_modelled_class}, module_env={"log": Obj("log"), "schema": Obj("schema"), "exceptions": Obj("exceptions"), "copy": Obj("copy"), "jsonpatch": Obj("jsonpatch")})
         w.add_foreign_base("dict", dict_base())
         w.add_class(mix).add_class(wsc)
         for q, f_ in repo.module(WS).funcs.items():
@@ -698,6 +699,70 @@ def _model_history_body(ctx, rid, w, ws, mm, calls, show, errs):
     finally:
         w.base.pop("Model", None)
         w.ext = None
+
+
+def workspace_verbatim(ctx, rid, repo):
+    """A Workspace IS the document it was built from: Workspace.__init__ (through the channel-summary mixin into dict), interpreted
+    on a document whose channels, samples and measurements are NOT listed in name order, stores exactly that document -- same
+    keys, same values, same list orders (digests, JSON patches addressed by index and json.dumps all see the list order) -- and
+    leaves the caller's document untouched (shared by C16.R7, C17.R9)."""
+    import copy as _copy
+    from ..alg import RaisedInFragment, Undecided, to_poly
+    from ..objmodel import World, dict_base
+    at = Poly.atom
+    wsc = repo.cls(WS, "Workspace")
+    errs = (Undecided, KeyError, TypeError, ValueError, IndexError, AttributeError)
+
+    def show(v):
+        if isinstance(v, (list, tuple)):
+            return [show(x) for x in v]
+        if isinstance(v, dict):
+            return {k: show(x) for k, x in v.items()}
+        return v if v is None or isinstance(v, (str, bool)) else str(to_poly(v))
+
+    def smp(name, tag, n):
+        return {"name": name, "data": [at(f"{tag}{j}") for j in range(n)], "modifiers": [{"name": "zz_last", "type": "normfactor", "data": None}, {"name": "aa_first", "type": "normfactor", "data": None}]}
+
+    doc = {"channels": [{"name": "SR", "samples": [smp("sig", "Ss", 2), smp("bkg", "Sb", 2)]}, {"name": "CR", "samples": [smp("bkg", "Cb", 3)]}, {"name": "VR", "samples": [smp("top", "Vt", 1)]}],
+           "observations": [{"name": "VR", "data": [at("Vo0")]}, {"name": "SR", "data": [at("So0"), at("So1")]}, {"name": "CR", "data": [at("Co0"), at("Co1"), at("Co2")]}],
+           "measurements": [{"name": "zeta", "config": {"poi": "zz_last", "parameters": []}}, {"name": "alpha", "config": {"poi": "aa_first", "parameters": []}}], "version": "1.0.0"}
+    try:
+        w = World({"__strict__": True, "deepcopy": lambda a, k: _deep(a[0]), "__isinstance__": _isinstance_of_modelled_class}, module_env={"log": Obj("log"), "schema": Obj("schema"), "exceptions": Obj("exceptions"), "copy": Obj("copy"), "jsonpatch": Obj("jsonpatch")})
+        w.add_foreign_base("dict", dict_base())
+        w.add_class(repo.cls("src/pyhf/mixins.py", "_ChannelSummaryMixin")).add_class(wsc)
+        before = _copy.deepcopy(show(doc))
+        ws = w.new(wsc, [doc], {"validate": False})
+        stored = show(ws.attrs.get("__payload__"))
+        if show(doc) != before:
+            ctx.violated(rid, wsc.methods["__init__"], "the caller's document", "constructing a Workspace changes the document the caller passed", expected="untouched", found="changed")
+        elif stored != before:
+            diff = next((k for k in before if stored.get(k) != before[k]), "?") if isinstance(stored, dict) else "?"
+            ctx.violated(rid, wsc.methods["__init__"], f"the stored document [{diff}]", f"the Workspace does not hold the document it was built from verbatim: `{diff}` differs (a list re-ordered, an entry added or dropped) -- its digest, its JSON serialisation and every index-addressed JSON patch applied to it then differ from the caller's document", expected=str(before.get(diff))[:150], found=str(stored.get(diff) if isinstance(stored, dict) else stored)[:150])
+        else:
+            ctx.holds(rid, f"{WS}::Workspace.__init__ [3 channels, samples, modifiers, observations and measurements listed out of name order]", "the stored document equals the caller's, list orders included; the caller's document is untouched")
+    except RaisedInFragment as e:
+        ctx.violated(rid, wsc, "Workspace construction", f"raises {e.exc_name} on a well-formed document")
+    except errs as e:
+        ctx.unrecognised(rid, wsc, "Workspace construction", f"not interpretable: {type(e).__name__}: {e}")
+
+
+def _isinstance_of_modelled_class(v, cl):
+    """isinstance(v, <modelled class>) for instances of the object model (by class name along the bases)"""
+    from ..objmodel import Instance
+    if not isinstance(v, Instance):
+        return False
+    want = getattr(cl, "name", None)
+    seen, todo = set(), [v.cls]
+    while todo:
+        c_ = todo.pop()
+        if c_.name == want:
+            return True
+        seen.add(c_.name)
+        for b in c_.base_names():
+            b_ = (b or "").split(".")[-1]
+            if b_ == want:
+                return True
+    return False
 
 
 def _attr(w, obj, name):
